@@ -21,6 +21,15 @@ CLAIMED = {
             "instrumentation as the source of access events; SC interleaving (x86 locked RMW; weak CAS = strong); "
             "-O0 build of the header; counters below 2^64.",
             "DESIGN.md 6 C16"),
+    "C18": ("Coq inductive invariant + ticket/acquisition history over an access-granularity model; lock-step trace correspondence",
+            "Machine-checked theorems over every reachable state of an executable model of src/fiber_spinlock.c (one step per "
+            "access, counters mod 2^32 starting anywhere, any number < 2^32 of contenders, any programs, any schedule): mutual "
+            "exclusion, FIFO ticket order (also as a history statement), trylock never steals and never spins, unlock advances "
+            "now-serving by one. Tied to /repo's working tree on every run by per-access trace comparison of the instrumented "
+            "fiber_spinlock.c with the extracted model, including counters crossing the 2^32 wrap.",
+            "Trusts: Coq kernel; extraction + OCaml driver; rt/rt.c + gcc TSan instrumentation; SC interleaving (weak CAS = "
+            "strong); -O0 build; guard: fewer than 2^32 simultaneous contenders.",
+            "DESIGN.md 6 C18"),
 }
 
 NOT_YET = "model and proof not built yet in this development (see DESIGN.md 6 for the plan); not claimed until a check exists"
